@@ -23,12 +23,49 @@ import (
 
 type fakeTable struct {
 	closed *atomic.Int32
+	misuse *atomic.Pointer[string] // set when the storage layer uses a table it has closed (or closes one it is using)
 	root   string
+	slow   bool // concurrent runs: the operations take a moment, as on real tables
+	gone   atomic.Bool
+	inUse  atomic.Int32
 }
 
-func (f *fakeTable) Close() error           { f.closed.Add(1); return nil }
-func (f *fakeTable) Collect(storage.Metrics) {}
+func (f *fakeTable) note(what string) {
+	if f.misuse != nil {
+		s := what + " " + f.root
+		f.misuse.CompareAndSwap(nil, &s)
+	}
+}
+
+func (f *fakeTable) use(what string) func() {
+	if f.gone.Load() {
+		f.note(what + " called on a closed table")
+	}
+	f.inUse.Add(1)
+	if f.slow {
+		time.Sleep(150 * time.Microsecond)
+	}
+	return func() {
+		if f.gone.Load() {
+			f.note("table closed while " + what + " was running on it")
+		}
+		f.inUse.Add(-1)
+	}
+}
+
+func (f *fakeTable) Close() error {
+	if f.inUse.Load() > 0 {
+		f.note("Close called while the table was in use")
+	}
+	f.gone.Store(true)
+	f.closed.Add(1)
+	return nil
+}
+
+func (f *fakeTable) Collect(storage.Metrics) { defer f.use("Collect")() }
+
 func (f *fakeTable) TakeFileSnapshot(dst string) (bool, error) {
+	defer f.use("TakeFileSnapshot")()
 	return true, os.WriteFile(filepath.Join(dst, "fake.snp"), []byte("x"), 0o600)
 }
 
@@ -45,6 +82,9 @@ type segCfg struct {
 type tsdb = storage.TSDB[*fakeTable, any]
 
 type world struct {
+	misuse     *atomic.Pointer[string]
+	slowTables bool
+	failOpen string // injected fault: shard tables under a directory containing this name fail to open
 	db     tsdb
 	mc     timestamp.MockClock
 	closes *atomic.Int32
@@ -78,7 +118,10 @@ func (w *world) open(now int) error {
 		TTL:             storage.IntervalRule{Unit: storage.HOUR, Num: w.cfg.TTL},
 		ShardNum:        1,
 		TSTableCreator: func(_ fs.FileSystem, root string, _ common.Position, _ *logger.Logger, _ timestamp.TimeRange, _ any, _ any) (*fakeTable, error) {
-			return &fakeTable{root: root, closed: w.closes}, nil
+			if w.failOpen != "" && strings.Contains(root, w.failOpen) {
+				return nil, fmt.Errorf("injected: shard table of %s does not open", w.failOpen)
+			}
+			return &fakeTable{root: root, closed: w.closes, misuse: w.misuse, slow: w.slowTables}, nil
 		},
 		SegmentIdleTimeout: time.Nanosecond,
 		DisableRetention:   false,
